@@ -329,6 +329,19 @@ class C13(Check):
                 ops.append(op)
                 # pool growth is not known in advance; indices are taken modulo the pool size at run time
             out.append({"pool": pool, "ops": ops})
+        # dedicated histories: a refinement that only tactic 4 can do, and only by recursing through a context row with TWO variables
+        # to eliminate (no single-conflict goal row), performed, followed by unrelated work, and performed again on equal operands.
+        # State that such a recursion leaves behind (a default argument that grows, a module-level list that shrinks) shows in the repeat.
+        for _ in range(3):
+            sg = float(rng.choice([1, -1]))
+            chain = {"ins": ["i", "j", "k"], "outs": ["o"],
+                     "a": [{"c": {"i": sg, "j": -sg}, "k": float(rng.randint(0, 2))}, {"c": {"j": sg, "k": -sg}, "k": float(rng.randint(0, 2))}],
+                     "g": [{"c": {"o": sg * rng.choice([1.0, 2.0]), "i": sg}, "k": float(rng.randint(-2, 3))}]}
+            c1, c2, _w = K.gen_pair(rng)
+            e = {"k": "elim", "i": 0, "refine": True, "xs": ["i", "j"], "simplify": rng.random() < 0.5, "order": rng.choice([[1, 2, 3, 4, 5], [4], [4, 5]])}
+            mid = [{"k": "compose", "i": 1, "j": 2, "keep": [], "simplify": True, "order": [1, 2, 3, 4, 5]}, {"k": "copy", "i": 0},
+                   {"k": "elim", "i": 1, "refine": False, "xs": ["x"], "simplify": True, "order": [1, 2, 3, 4, 5]}]
+            out.append({"pool": [chain, c1, c2], "ops": [dict(e)] + mid[: rng.randint(1, 3)] + [dict(e), {"k": "is_empty", "i": 0}, dict(e)]})
         return out
 
     def run_impl(self, case):
